@@ -6,6 +6,7 @@ package main
 
 import (
 	"go/token"
+	"strings"
 
 	"golang.org/x/tools/go/ssa"
 )
@@ -36,6 +37,20 @@ func funcValueOf(v ssa.Value) *ssa.Function {
 	for d := 0; d < 4; d++ {
 		switch x := v.(type) {
 		case *ssa.Function:
+			// a method expression (*T).M used as a value is a synthetic thunk around the method: unwrap it
+			if strings.HasPrefix(x.Synthetic, "thunk") || strings.HasPrefix(x.Synthetic, "bound method") || strings.HasPrefix(x.Synthetic, "wrapper") {
+				var inner *ssa.Function
+				n := 0
+				forEachInstr(x, func(in ssa.Instruction) {
+					if ci, ok := in.(ssa.CallInstruction); ok {
+						n++
+						inner = ci.Common().StaticCallee()
+					}
+				})
+				if n == 1 && inner != nil {
+					return inner
+				}
+			}
 			return x
 		case *ssa.MakeClosure:
 			f, _ := x.Fn.(*ssa.Function)
